@@ -524,9 +524,9 @@ Proof.
       aout_ok lt s
         match value b with
         | Some p =>
-            lift s self (clone_slots (heap_of s) (slots p)) (fun s1 =>
+            lift s self (clone_slots (heap_of s) (cloned_slots (slots p))) (fun s1 =>
               AO (set_reg (set_heap s1 (heap_of s1 ++
-                    [new_box {| pid := length (heap_of s); slots := slots p; script := [] |}]))
+                    [new_box {| pid := length (heap_of s); slots := cloned_slots (slots p); script := [] |}]))
                     r (RStrong (length (heap_of s)))) self RUnit [FDropStrong o])
         | None => AHalt (HFault FkValueMoved o)
         end).
@@ -2262,6 +2262,32 @@ Proof. reflexivity. Qed.
 Lemma hb_new_box o p : hb o (new_box p) = hp o p.
 Proof. reflexivity. Qed.
 
+(** [Clone for Node] copies all the handles of the node or none of them *)
+Lemma cloned_slots_cases ss : cloned_slots ss = ss \/ cloned_slots ss = empty_slots.
+Proof. unfold cloned_slots. destruct (clone_detached ss); auto. Qed.
+
+Lemma sumf_empty_slots (f : slot -> N) : f SEmpty = 0 -> sumf f empty_slots = 0.
+Proof.
+  intros Hf. unfold empty_slots. induction NSLOTS as [|n IH]; cbn [repeat sumf]; [reflexivity|].
+  rewrite Hf, IH. reflexivity.
+Qed.
+
+(** for every weight that ignores empty slots, the clone weighs as much as the
+    original, or nothing *)
+Lemma sumf_cloned_cases (f : slot -> N) ss :
+  f SEmpty = 0 -> sumf f (cloned_slots ss) = sumf f ss \/ sumf f (cloned_slots ss) = 0.
+Proof.
+  intros Hf. destruct (cloned_slots_cases ss) as [-> | ->]; [left; reflexivity|].
+  right. apply sumf_empty_slots, Hf.
+Qed.
+
+Lemma sumf_cloned_le (f : slot -> N) ss :
+  f SEmpty = 0 -> sumf f (cloned_slots ss) <= sumf f ss.
+Proof. intros Hf. destruct (sumf_cloned_cases f ss Hf) as [E|E]; rewrite E; lia. Qed.
+
+Lemma hss_cloned_le o ss : hss o (cloned_slots ss) <= hss o ss.
+Proof. apply sumf_cloned_le. reflexivity. Qed.
+
 Lemma exec_new_count s self dst sc0 : cok s self (exec_new s self dst sc0).
 Proof.
   unfold exec_new. destruct (reg_free s dst) eqn:Hf; [|apply cok_same; discriminate].
@@ -2391,9 +2417,9 @@ Proof.
       cok s self
         match value b with
         | Some p =>
-            lift s self (clone_slots (heap_of s) (slots p)) (fun s1 =>
+            lift s self (clone_slots (heap_of s) (cloned_slots (slots p))) (fun s1 =>
               AO (set_reg (set_heap s1 (heap_of s1 ++
-                    [new_box {| pid := length (heap_of s); slots := slots p; script := [] |}]))
+                    [new_box {| pid := length (heap_of s); slots := cloned_slots (slots p); script := [] |}]))
                     r (RStrong (length (heap_of s)))) self RUnit [FDropStrong o1])
         | None => AHalt (HFault FkValueMoved o1)
         end).
@@ -2406,6 +2432,7 @@ Proof.
       rewrite hb_new_box. unfold hp at 1; cbn [slots].
       pose proof (sumf_ge (hb o) _ _ _ Gn) as Ge. rewrite (hb_some o b p V) in Ge.
       unfold hp in Ge. fold (hcnt o (heap_of s)) in Ge.
+      pose proof (hss_cloned_le o (slots p)) as Cl.
       unfold eqN in *. destruct (Nat.eqb_spec o (length (heap_of s))) as [->|Hne];
         cbn [strong new_box cnt_of].
       - rewrite sc_beyond in H by lia. lia.
